@@ -19,10 +19,15 @@
 (*           one block, both compression schemes                           *)
 (*   S   blocks x SeriesIds                                                *)
 (*   MC  names x types x values over ConvSigma (Sigma plus a digit)        *)
+(*   RP  receiver's expanded-postings cache: the empty list, one-matcher   *)
+(*       lists with name (1 character) and value (up to RecvValLen) over   *)
+(*       RecvSigma = { | = ~ a } and all four types, and two-matcher lists *)
+(*       with name "a", all types, values up to 1 character -- the scope   *)
+(*       in which a value can spell `|a=`, the text between two matchers   *)
 (***************************************************************************)
 EXTENDS Keys, Json, IOUtils, SequencesExt, FiniteSetsExt
 CONSTANTS Sigma, MaxLen, ConvSigma, ListSigma, ListValLen, ListTypes,
-          Blocks, Comps, SeriesIds, Legacy, GroupSyms
+          Blocks, Comps, SeriesIds, Legacy, GroupSyms, RecvValLen
 
 Types == {"EQ", "NEQ", "RE", "NRE"}
 
@@ -47,9 +52,14 @@ EP2Items == [kind : {"EP"}, blk : {CHOOSE b \in Blocks : TRUE}, comp : Comps,
              ms : { <<m>> : m \in ListMatchers(ListValLen) }
                   \cup { <<m1, m2>> : m1 \in ListMatchers(1), m2 \in ListMatchers(1) }]
 SItems == [kind : {"S"}, blk : Blocks, id : { Dec(n) : n \in SeriesIds }]
+RecvSigma == {"|", "=", "~", "a"}
+RecvListMatchers == [name : {<<"a">>}, type : Types, value : Str(RecvSigma, 0, 1)]
+RPItems == [kind : {"RP"}, blk : {CHOOSE b \in Blocks : TRUE},
+            ms : {<<>>} \cup { <<m>> : m \in Matchers(RecvSigma, 1, RecvValLen, Types) }
+                 \cup { <<m1, m2>> : m1 \in RecvListMatchers, m2 \in RecvListMatchers }]
 MCItemsOver(S) == [kind : {"MC"}, name : Str(S, 1, MaxLen), type : Types, value : Str(S, 0, MaxLen)]
 
-Items == PItemsOver(Sigma) \cup EP1ItemsOver(Sigma) \cup EP2Items \cup SItems \cup MCItemsOver(ConvSigma)
+Items == PItemsOver(Sigma) \cup EP1ItemsOver(Sigma) \cup EP2Items \cup SItems \cup MCItemsOver(ConvSigma) \cup RPItems
 
 (* ---- every item with its key; which keys are shared by different items -------------------- *)
 (* evaluated once (constant level).  KI is sorted by TLC, so entries with the same             *)
@@ -94,6 +104,7 @@ CaseSet ==
     { [space |-> "index", items |-> SetToSeq(IndexGroup(T))] : T \in Subsets(Sigma, GroupSyms) }
     \cup { [space |-> "conv", items |-> SetToSeq(MCItemsOver(T))] : T \in Subsets(ConvSigma, GroupSyms) }
     \cup { [space |-> "index", items |-> SetToSeq(EP2Items)] }
+    \cup { [space |-> "recv", items |-> SetToSeq(RPItems)] }
 ASSUME ndJsonSerialize(CasesFile, SetToSeq(CaseSet))
 
 (* The algorithm-level keys pass the very judge leg C applies to the real keys (KeysSeparate), *)
@@ -102,5 +113,5 @@ ASSUME ndJsonSerialize(CasesFile, SetToSeq(CaseSet))
 (* some of them links the two formulations.)                                                    *)
 JudgedGroups == { c \in CaseSet : c.space = "conv" } \cup { CHOOSE c \in CaseSet : c.space = "index" }
 GroupsJudgedOK == \A c \in JudgedGroups : KeysSeparate(c.items, [x \in DOMAIN c.items |-> Key(c.items[x], Legacy)])
-ASSUME Legacy \/ GroupsJudgedOK
+ASSUME Legacy # {} \/ GroupsJudgedOK
 =============================================================================
